@@ -363,21 +363,35 @@ def decode_product(prog: Program) -> RuleResult:
         res.ok(f"{base}/product", short(it, 80))
         outer = [l for l in loops_around(fn, loop)]
         if has_table:
-            tag_loops = [
-                l
-                for l in outer
-                if isinstance(l, ast.For)
-                and isinstance(l.iter, ast.Call)
-                and isinstance(l.iter.func, ast.Attribute)
-                and l.iter.func.attr in ("infos", "info", "__iter__")
-            ]
+            tag_loops = []
+            for l in outer:
+                if not isinstance(l, ast.For):
+                    continue
+                tag_calls = [
+                    c
+                    for c in calls_in(l.iter)
+                    if isinstance(c.func, ast.Attribute) and c.func.attr in ("infos", "info") and _rooted_at_sub(c.func.value, "table")
+                ]
+                if tag_calls:
+                    tag_loops.append((l, tag_calls))
             if not tag_loops:
                 raise AnalysisError(f"{base}: loop over the entry's tags not recognised")
-            tl = tag_loops[0]
-            if tl.iter.func.attr != "infos":  # type: ignore[union-attr]
-                res.fail(f"{base}/tags", f"iterates `{short(tl.iter)}` instead of all tags `.infos()`", mod, tl)
-            else:
+            tl, tag_calls = tag_loops[0]
+            direct = isinstance(tl.iter, ast.Call) and tl.iter is tag_calls[0] and tag_calls[0].func.attr == "infos"
+            wrapped_ok = (
+                tag_calls[0].func.attr == "infos"
+                and isinstance(tl.iter, ast.Call)
+                and dotted(tl.iter.func) in ("sorted", "list", "tuple", "set", "iter", "tqdm")
+            )
+            if direct or wrapped_ok:
                 res.ok(f"{base}/tags", short(tl.iter, 80))
+            else:
+                res.fail(
+                    f"{base}/tags",
+                    f"iterates `{short(tl.iter)}` instead of all retained tags `.infos()`: co-optimal solutions are dropped",
+                    mod,
+                    tl,
+                )
         scope = outer[0] if outer else loop
         early = [n for n in walk_no_nested(scope) if isinstance(n, (ast.Break, ast.Return))]
         if early:
